@@ -853,6 +853,7 @@ func TestC20_SharedConfig(t *testing.T) {
 		warm := rapid.Bool().Draw(t, "warm")
 		id := fmt.Sprint("sc", cn)
 		var cc, sc *gmtls.Config
+		perClient := false
 		switch mode {
 		case "gm":
 			cc, sc = tlsx.GMClient(p, "c"+id), tlsx.GMServer(p, "s"+id)
@@ -878,6 +879,17 @@ func TestC20_SharedConfig(t *testing.T) {
 		if rapid.Bool().Draw(t, "multikey") {
 			cc.ServerName, cc.InsecureSkipVerify = "", true
 			names = []string{"a:443", "b:443", "c:443"}
+		}
+		if gen.Uniform(t, "perclientconfig", 3) == 0 {
+			// every client gets a configuration of its own from GetConfigForClient - a fresh value that inherits the ticket
+			// keys of the shared one at its first use, while the shared one is being rotated
+			base := sc
+			sc.GetConfigForClient = func(*gmtls.ClientHelloInfo) (*gmtls.Config, error) {
+				return &gmtls.Config{GMSupport: base.GMSupport, Certificates: base.Certificates, GetCertificate: base.GetCertificate, GetKECertificate: base.GetKECertificate,
+					CipherSuites: base.CipherSuites, ClientAuth: base.ClientAuth, ClientCAs: base.ClientCAs, Rand: base.Rand, Time: base.Time,
+					MinVersion: base.MinVersion, MaxVersion: base.MaxVersion, KeyLogWriter: base.KeyLogWriter}, nil
+			}
+			perClient = true
 		}
 		keys := [][32]byte{{1, byte(cn)}}
 		sc.SetSessionTicketKeys(keys)
@@ -1091,7 +1103,10 @@ func TestC20_SharedConfig(t *testing.T) {
 		if resumed > 0 {
 			cl = append(cl, "resumed_concurrently")
 		}
-		R.Case(true, hx.HashKey("shared", cn, mode, k, rotations, warm), cl...)
+		if perClient {
+			cl = append(cl, "per_client_configs")
+		}
+		R.Case(true, hx.HashKey("shared", cn, mode, k, rotations, warm, perClient), cl...)
 		R.Sample("shared_config", map[string]interface{}{"mode": mode, "connections": k, "rotations": rotations, "resumed": resumed})
 	})
 }
